@@ -113,6 +113,15 @@ func calls() []call {
 		{"ReplaceArcs", false, func(x *callCtx) { keep(x, x.p.ReplaceArcs()) }},
 		{"XMonotone", false, func(x *callCtx) { keep(x, x.p.XMonotone()) }},
 		{"Split", false, func(x *callCtx) { keep(x, x.p.Split()...) }},
+		// the pieces returned by Split are capacity-limited views (p.d[i:j:j]): appending to a piece must
+		// reallocate and never write into the receiver (anchor "capacity-limited subpath slices")
+		{"SplitThenAppend", false, func(x *callCtx) {
+			for _, piece := range x.p.Split() {
+				piece.LineTo(x.pt.X+123.25, x.pt.Y-77.5)
+				piece.QuadTo(1, 2, x.pt.X, x.pt.Y)
+				piece.Close()
+			}
+		}},
 		{"SplitAt", false, func(x *callCtx) { keep(x, x.p.SplitAt(x.ts...)...) }},
 		{"Dash", false, func(x *callCtx) { keep(x, x.p.Dash(x.t, x.dash...)) }},
 		{"Reverse", false, func(x *callCtx) { keep(x, x.p.Reverse()) }},
